@@ -53,13 +53,13 @@ def parsePath15 (s : String) : Option (List Idx) :=
     | _ => none
 
 /-- a value argument: `v<hexdoc>` = freshly parsed, `s<j>.<path>` = clone of a part of slot `j` -/
-def parseVal (slots : List DV) (s : String) : Option DV :=
+def parseArg (s : String) : Option Arg :=
   match s.toList with
-  | 'v' :: rest => docDV (String.ofList rest)
+  | 'v' :: rest => (docDV (String.ofList rest)).map .lit
   | 's' :: rest =>
     match (String.ofList rest).splitOn "." with
     | [j, p] => match j.toNat?, parsePath15 p with
-      | some j, some p => (slots[j]?).bind fun v => v.pointer p
+      | some j, some p => some (.part j p)
       | _, _ => none
     | _ => none
   | _ => none
@@ -72,69 +72,89 @@ def showOut (o : Out DV) : String :=
   | .missing => "missing"
   | .panic => "panic"
 
-def parseMOp (slots : List DV) (name : String) (args : List String) : Option (MOp DV) :=
+def showOutJ (o : Out J) : String :=
+  match o with
+  | .done => "done"
+  | .val v => "val:" ++ dumpJ v
+  | .none => "none"
+  | .missing => "missing"
+  | .panic => "panic"
+
+def parseMOp (name : String) (args : List String) : Option (MOp Arg) :=
   match name, args with
-  | "push", [x] => (parseVal slots x).map .push
+  | "push", [x] => (parseArg x).map .push
   | "pop", [] => some .pop
-  | "insat", [n, x] => match n.toNat?, parseVal slots x with
+  | "insat", [n, x] => match n.toNat?, parseArg x with
     | some n, some x => some (.insertAt n x)
     | _, _ => none
   | "remat", [n] => n.toNat?.map .removeAt
   | "swaprem", [n] => n.toNat?.map .swapRemove
   | "trunc", [n] => n.toNat?.map .truncate
   | "clear", [] => some .clear
-  | "oins", [k, x] => match unhex k, parseVal slots x with
+  | "oins", [k, x] => match unhex k, parseArg x with
     | some k, some x => some (.objInsert k.toList x)
     | _, _ => none
   | "orem", [k] => (unhex k).map fun k => .objRemove k.toList
   | "take", [] => some .take
-  | "assign", [x] => (parseVal slots x).map .assign
-  | "setk", [k, x] => match unhex k, parseVal slots x with
+  | "assign", [x] => (parseArg x).map .assign
+  | "setk", [k, x] => match unhex k, parseArg x with
     | some k, some x => some (.setKey k.toList x)
     | _, _ => none
-  | "seti", [n, x] => match n.toNat?, parseVal slots x with
+  | "seti", [n, x] => match n.toNat?, parseArg x with
     | some n, some x => some (.setIdx n x)
     | _, _ => none
-  | "orins", [k, x] => match unhex k, parseVal slots x with
+  | "orins", [k, x] => match unhex k, parseArg x with
     | some k, some x => some (.orInsert k.toList x)
     | _, _ => none
   | _, _ => none
 
-/-- `c15 <op>;<op>;...` → per step `result|dumps|skeletons` -/
+def parseHOp (w : String) : Option HOp :=
+  match w.splitOn ":" with
+  | ["P", h] => (docDV h).map .new
+  | ["C", i] => i.toNat?.map .clone
+  | ["D", i] => i.toNat?.map .drop
+  | ["G", i, path] => match i.toNat?, parsePath15 path with
+    | some i, some path => some (.read i path)
+    | _, _ => none
+  | "X" :: i :: path :: name :: margs => match i.toNat?, parsePath15 path, parseMOp name margs with
+    | some i, some path, some op => some (.mutate i path op)
+    | _, _, _ => none
+  | _ => none
+
+def showStep (w : String) (o : String) : String :=
+  if w.startsWith "P" || w.startsWith "C" || w.startsWith "D" then "ok" else o
+
+/-- the history on the representation model (`DV.hstep`): per step `result|dumps|skeletons` -/
+def runDV (prog : String) : String :=
+  let rec go (slots : List DV) (ws : List String) (acc : List String) : List String :=
+    match ws with
+    | [] => acc.reverse
+    | w :: rest =>
+      match (parseHOp w).bind (DV.hstep slots) with
+      | none => (s!"bad-op({w})" :: acc).reverse
+      | some (slots', o) =>
+        let line := showStep w (showOut o) ++ "|" ++ String.intercalate "," (slots'.map fun v => dumpJ (abs v)) ++ "|" ++
+          String.intercalate "," (slots'.map skel)
+        go slots' rest (line :: acc)
+  String.intercalate ";" (go [] (prog.splitOn ";") [])
+
+/-- the same history on the reference model of plain vectors and maps (`J.hstep`): per step `result|dumps` -/
+def runJ (prog : String) : String :=
+  let rec go (slots : List J) (ws : List String) (acc : List String) : List String :=
+    match ws with
+    | [] => acc.reverse
+    | w :: rest =>
+      match (parseHOp w).bind (J.hstep slots) with
+      | none => (s!"bad-op({w})" :: acc).reverse
+      | some (slots', o) =>
+        let line := showStep w (showOutJ o) ++ "|" ++ String.intercalate "," (slots'.map dumpJ)
+        go slots' rest (line :: acc)
+  String.intercalate ";" (go [] (prog.splitOn ";") [])
+
+/-- `c15 <op>;<op>;...` -/
 def c15 (args : List String) : String :=
   match args with
-  | [prog] =>
-    let rec go (slots : List DV) (ws : List String) (acc : List String) : List String :=
-      match ws with
-      | [] => acc.reverse
-      | w :: rest =>
-        let p := w.splitOn ":"
-        let r : Option (List DV × String) :=
-          match p with
-          | ["P", h] => (docDV h).map fun v => (slots ++ [v], "ok")
-          | ["C", i] => (i.toNat?.bind fun i => slots[i]?).map fun v => (slots ++ [v], "ok")
-          | ["D", i] => i.toNat?.bind fun i => if i < slots.length then some (slots.eraseIdx i, "ok") else none
-          | ["G", i, path] =>
-            match i.toNat?.bind (fun i => slots[i]?), parsePath15 path with
-            | some v, some path => some (slots, match v.pointer path with | some c => "val:" ++ dumpJ (abs c) | none => "none")
-            | _, _ => none
-          | "X" :: i :: path :: name :: margs =>
-            match i.toNat?, parsePath15 path with
-            | some i, some path =>
-              match slots[i]?, parseMOp slots name margs with
-              | some v, some op =>
-                let (v', o) := DV.updPath (DV.apply op) path v
-                some (slots.set i v', showOut o)
-              | _, _ => none
-            | _, _ => none
-          | _ => none
-        match r with
-        | none => (s!"bad-op({w})" :: acc).reverse
-        | some (slots', res) =>
-          let line := res ++ "|" ++ String.intercalate "," (slots'.map fun v => dumpJ (abs v)) ++ "|" ++
-            String.intercalate "," (slots'.map skel)
-          go slots' rest (line :: acc)
-    String.intercalate ";" (go [] (prog.splitOn ";") [])
+  | [prog] => "model=" ++ runDV prog ++ " spec=" ++ runJ prog
   | _ => "bad-args"
 
 end Driver
